@@ -278,21 +278,31 @@ func TestProp_C09_Damaged(t *testing.T) {
 			for k := 0; k < 4; k++ {
 				for order := 0; order < 2; order++ {
 					for tail := 0; tail < 2; tail++ {
-						idx++
-						if idx%sn != si {
-							continue
+						for pre := 0; pre < 3; pre++ {
+							idx++
+							if idx%sn != si {
+								continue
+							}
+							var ops []SOp
+							for i := 0; i < k; i++ {
+								ops = append(ops, SOp{K: "pp", W: (dir + i) & 1, I: 0, L: 7})
+							}
+							switch pre {
+							case 1:
+								// one side has sent more than the other: the two key ids of a pair are no longer equal
+								ops = append(ops, SOp{K: "burst", W: dir, I: 1}, SOp{K: "send", W: 1 - dir, L: 5}, SOp{K: "flush"}, SOp{K: "burst", W: dir, I: 0})
+							case 2:
+								// the damaged message is the answer of a half-finished round (the answerer has not rotated yet)
+								ops = append(ops, SOp{K: "send", W: 1 - dir, L: 5}, SOp{K: "flush"})
+							}
+							ops = append(ops, SOp{K: "badmac", W: dir, F: order, I: 3 * k})
+							if tail == 0 {
+								ops = append(ops, SOp{K: "pp", W: 1 - dir, I: 2, L: 7}, SOp{K: "pp", W: dir, I: 2, L: 7})
+							} else {
+								ops = append(ops, SOp{K: "burst", W: 1 - dir, I: 2}, SOp{K: "burst", W: dir, I: 2}, SOp{K: "cross", I: 2}, SOp{K: "pp", W: dir, I: 1, L: 7})
+							}
+							sim.Judge(t, "C09damaged", &SessScript{Cfg: SessCfg{V: v, SeedA: 900, SeedB: 951, KeyA: 0, KeyB: 3, Starter: k & 1}, Ops: ops})
 						}
-						var ops []SOp
-						for i := 0; i < k; i++ {
-							ops = append(ops, SOp{K: "pp", W: (dir + i) & 1, I: 0, L: 7})
-						}
-						ops = append(ops, SOp{K: "badmac", W: dir, F: order, I: 3 * k})
-						if tail == 0 {
-							ops = append(ops, SOp{K: "pp", W: 1 - dir, I: 2, L: 7}, SOp{K: "pp", W: dir, I: 2, L: 7})
-						} else {
-							ops = append(ops, SOp{K: "burst", W: 1 - dir, I: 2}, SOp{K: "burst", W: dir, I: 2}, SOp{K: "cross", I: 2}, SOp{K: "pp", W: dir, I: 1, L: 7})
-						}
-						sim.Judge(t, "C09damaged", &SessScript{Cfg: SessCfg{V: v, SeedA: 900, SeedB: 951, KeyA: 0, KeyB: 3, Starter: k & 1}, Ops: ops})
 					}
 				}
 			}
